@@ -184,13 +184,7 @@ Print Assumptions C05_no_same_owner_drops_xattrs.
 
 (* root (mtime 1000, xattrs listed b then a) with: a set-uid file "a" (mtime 5), a symlink "b"
    (mtime 9), an empty directory "c" (mtime 7), a file "d" with mtime 0, a char device "e" *)
-Definition C05_witness : tree :=
-  TDir (mkAttrs 16877 0 0 1000 [([117; 46; 98], [1]); ([117; 46; 97], [2; 0; 3])])
-    [ ([97], TFile (mkAttrs 35309 1000 4000000000 5 []) [1; 2; 3]);
-      ([98], TLink (mkAttrs 41471 7 8 9 []) [47; 120]);
-      ([99], TDir (mkAttrs 17407 1 2 7 []) []);
-      ([100], TFile (mkAttrs 33188 0 0 0 []) []);
-      ([101], TDev (mkAttrs 8612 0 0 3 []) 1283) ].
+Definition C05_witness : tree := witness_tree.
 
 (* Tar, decode, UnTar into an empty directory as root with umask 022 *)
 Definition run_model (pr : proc) (o : lopts) (t : tree) : option fnode :=
@@ -245,18 +239,36 @@ Proof. vm_compute. reflexivity. Qed.
 
 (* the hypotheses of the theorems are satisfiable: the witness is a well-formed tree *)
 Example C05_witness_wf : wf_tree C05_witness /\ unique_tree C05_witness /\ root_ok C05_witness.
-Proof.
-  assert (Hx : forall kv : bytes * bytes, ~ In 0 (fst kv) -> lenN (fst kv) < 2 ^ 61 -> lenN (snd kv) < 2 ^ 61 -> wf_xattr kv)
-    by (intros kv H1 H2 H3; repeat split; assumption).
-  assert (Ha : forall m u g t xs, m < 2 ^ 16 -> valid_type (N.land m S_IFMT) = true -> u < two64 -> g < two64 ->
-                 t < two64 -> Forall wf_xattr xs -> wf_attrs (mkAttrs m u g t xs))
-    by (intros; constructor; assumption).
-  split; [|split; [|exact I]].
-  - cbn [wf_tree C05_witness]. unfold type_is, good_name, small. cbn [t_mode].
-    repeat split; try (apply Ha); try reflexivity; try constructor; try (apply Hx); try reflexivity;
-      try constructor; try (apply Hx); try reflexivity; try constructor; try (left; reflexivity);
-      cbn; intuition discriminate.
-  - cbn [unique_tree C05_witness map fst]. repeat split; try reflexivity.
-    repeat constructor; cbn; try (intuition discriminate).
-    all: try constructor.
-Qed.
+Proof. exact witness_wf. Qed.
+
+(* ======================================================================================
+   Paths: the component lists of the models and Go's strings
+   ====================================================================================== *)
+From DS Require Base.GoPath Proofs.PathTie.
+
+(* Model/Archive.v keeps a.dir as a list of components.  With Go's path package modelled on
+   strings (Base/GoPath.v: path.Clean, path.Join, path.Dir) and a directory rendered as Go
+   holds it ("." for the root, components joined by '/'): path.Join(a.dir, name) and
+   filepath.Dir(a.dir) are [join] and [removelast] on the lists, for all directories made of
+   real components and every name that passes the decoder's check -- which is exactly the
+   names that are real components. *)
+Theorem C05_name_check : forall nm : bytes, bad_name nm = false <-> GoPath.real_elem nm.
+Proof. exact PathTie.bad_name_real. Qed.
+Print Assumptions C05_name_check.
+
+Theorem C05_path_join : forall (ds : list bytes) (nm : bytes),
+  Forall GoPath.real_elem ds -> GoPath.real_elem nm ->
+  GoPath.join [PathTie.render_dir ds; nm] = PathTie.render_dir (Archive.join ds nm) /\
+  GoPath.join [PathTie.render_dir ds; []] = PathTie.render_dir (Archive.join ds []).
+Proof. exact PathTie.join_render_both. Qed.
+Print Assumptions C05_path_join.
+
+Theorem C05_path_dir : forall ds : list bytes,
+  Forall GoPath.real_elem ds -> GoPath.dir (PathTie.render_dir ds) = PathTie.render_dir (removelast ds).
+Proof. exact PathTie.dir_render. Qed.
+Print Assumptions C05_path_dir.
+
+Example C05_path_example :
+  GoPath.join [PathTie.render_dir [[97]; [46; 46; 46]]; [32; 98]] = [97; 47; 46; 46; 46; 47; 32; 98] /\
+  GoPath.dir [97; 47; 46; 46; 46] = [97] /\ GoPath.dir [97] = [46].
+Proof. vm_compute. repeat split; reflexivity. Qed.
